@@ -604,6 +604,9 @@ struct Exec<'a> {
     ctx: Context,
     looked: Vec<u64>,
     slots: &'a mut Vec<Option<Slot>>,
+    /// reference-accounting histories (X04): the entry an operation returns is kept by the client
+    keep: bool,
+    kept: Option<u64>,
 }
 
 fn open_flags(op: &Value) -> i32 {
@@ -636,7 +639,11 @@ impl<'a> Exec<'a> {
     }
     fn got(&mut self, e: fuse_backend_rs::api::filesystem::Entry) {
         if e.inode != 0 {
-            self.looked.push(e.inode);
+            if self.keep {
+                self.kept = Some(e.inode);
+            } else {
+                self.looked.push(e.inode);
+            }
         }
     }
     /// opening a fifo would block the driver: such operations are not issued (status -6)
@@ -710,7 +717,14 @@ impl<'a> Exec<'a> {
                 let dir = self.resolve(&parent)?;
                 // the kernel looks the victim up first; an API client need not: keep the reference if it exists
                 if let Ok(e) = self.fs.lookup(&self.ctx, dir, cname.as_c_str()) {
-                    self.got(e);
+                    // X04 histories keep this reference only when the operation names it ("as")
+                    if self.keep && !op["as"].is_string() {
+                        if e.inode != 0 {
+                            self.looked.push(e.inode);
+                        }
+                    } else {
+                        self.got(e);
+                    }
                 }
                 if kind == "unlink" {
                     self.fs.unlink(&self.ctx, dir, cname.as_c_str()).map_err(e2n)
@@ -858,7 +872,7 @@ impl<'a> Exec<'a> {
 
 fn apply(fs: &OverlayFs, op: &Value, blocks: &mut Blocks, slots: &mut Vec<Option<Slot>>) -> i64 {
     let r = catch_unwind(AssertUnwindSafe(|| {
-        let mut ex = Exec { fs, ctx: Context::default(), looked: Vec::new(), slots };
+        let mut ex = Exec { fs, ctx: Context::default(), looked: Vec::new(), slots, keep: false, kept: None };
         let r = ex.run(op, blocks);
         ex.forget_all();
         r
@@ -868,6 +882,420 @@ fn apply(fs: &OverlayFs, op: &Value, blocks: &mut Blocks, slots: &mut Vec<Option
         Ok(Err(e)) => e,
         Err(_) => -2,
     }
+}
+
+// ------------------------------------------------------------------------------------------------
+// X04: inode lifetimes and lookup-count accounting. The client keeps the entries it is given, forgets them
+// explicitly and probes every number it ever held after each step. Judge: spec/Trace_OvlRefs.tla.
+
+#[derive(Default)]
+struct Client {
+    labels: HashMap<String, u64>,
+    order: Vec<String>,
+    counts: HashMap<u64, u64>,
+    /// numbers of a TLC-exported history ("mn") -> the numbers the real code handed out at the same step
+    model: HashMap<u64, u64>,
+}
+
+impl Client {
+    fn take(&mut self, lab: &str, ino: u64) {
+        if !self.labels.contains_key(lab) {
+            self.order.push(lab.to_string());
+        }
+        self.labels.insert(lab.to_string(), ino);
+        *self.counts.entry(ino).or_insert(0) += 1;
+    }
+    fn dec(&mut self, ino: u64, n: u64) {
+        if let Some(c) = self.counts.get_mut(&ino) {
+            *c = c.saturating_sub(n);
+        }
+    }
+    fn target(&self, v: &Value) -> Option<u64> {
+        match v.as_str() {
+            Some(l) => self.labels.get(l).copied(),
+            None => v.as_u64(),
+        }
+    }
+    /// the number a forget is addressed to: a label ("of"), a literal ("ino") or a model number ("mn";
+    /// one the real code never handed out becomes a number unknown to the server)
+    fn forget_target(&self, op: &Value) -> Option<u64> {
+        if let Some(m) = op["mn"].as_u64() {
+            return Some(self.model.get(&m).copied().unwrap_or(4000 + m));
+        }
+        self.target(if op["of"].is_null() { &op["ino"] } else { &op["of"] })
+    }
+}
+
+fn nfds() -> i64 {
+    std::fs::read_dir("/proc/self/fd").map(|d| d.count() as i64).unwrap_or(-1)
+}
+
+/// lookups along a path; every entry obtained is returned so that the caller can forget the temporary ones
+fn chain(fs: &OverlayFs, ctx: &Context, p: &[String], got: &mut Vec<u64>) -> Result<u64, i64> {
+    let mut ino = ROOT;
+    for c in p {
+        let e = fs.lookup(ctx, ino, cstr(c).as_c_str()).map_err(|e| errno_of(&e))?;
+        if e.inode == 0 {
+            return Err(libc::ENOENT as i64);
+        }
+        got.push(e.inode);
+        ino = e.inode;
+    }
+    Ok(ino)
+}
+
+impl Scn {
+    fn refs_step(&mut self, cl: &mut Client, op: &Value, tr: &mut Trace) {
+        let kind = op["op"].as_str().unwrap_or("").to_string();
+        let lab = op["as"].as_str().unwrap_or("").to_string();
+        let mut ev = op.clone();
+        if !op["c"].is_null() {
+            ev["c"] = Value::Array(parse_runs(&op["c"]).into_iter().map(|(s, i, n)| json!([s, i, n])).collect());
+        }
+        ev["e"] = json!("Op");
+        ev["seg"] = json!(self.seg);
+        let ctx = Context::default();
+        let fs = match self.fs.as_ref() {
+            Some(f) => f,
+            None => return,
+        };
+        match kind.as_str() {
+            "lookup" => {
+                let p = path_of(&op["p"]);
+                let r = catch_unwind(AssertUnwindSafe(|| {
+                    let mut tmp = Vec::new();
+                    let r = chain(fs, &ctx, &p, &mut tmp);
+                    // the last entry is the one the client keeps
+                    let kept = if r.is_ok() { tmp.pop() } else { None };
+                    for i in tmp.into_iter().rev() {
+                        fs.forget(&ctx, i, 1);
+                    }
+                    (r, kept)
+                }));
+                match r {
+                    Ok((Ok(_), Some(k))) => {
+                        cl.take(&lab, k);
+                        if let Some(m) = op["mn"].as_u64() {
+                            cl.model.insert(m, k);
+                        }
+                        ev["st"] = json!(0);
+                        ev["ino"] = json!(k);
+                    }
+                    Ok((Err(e), _)) => ev["st"] = json!(e),
+                    Ok(_) => ev["st"] = json!(-8),
+                    Err(_) => ev["st"] = json!(-2),
+                }
+            }
+            "rdplus" => {
+                let p = path_of(&op["p"]);
+                let r = catch_unwind(AssertUnwindSafe(|| {
+                    let mut tmp = Vec::new();
+                    let res = chain(fs, &ctx, &p, &mut tmp).and_then(|dir| {
+                        let (h, _) = fs.opendir(&ctx, dir, libc::O_RDONLY as u32).map_err(|e| errno_of(&e))?;
+                        let h = h.unwrap_or(0);
+                        let mut ents: Vec<(String, u64)> = Vec::new();
+                        let mut offset = 0u64;
+                        let mut err = None;
+                        for _ in 0..1000 {
+                            let mut cnt = 0;
+                            let r = fs.readdirplus(&ctx, dir, h, 65536, offset, &mut |d, e| {
+                                cnt += 1;
+                                offset = d.offset;
+                                ents.push((String::from_utf8_lossy(d.name).into_owned(), e.inode));
+                                Ok(1)
+                            });
+                            if let Err(e) = r {
+                                err = Some(errno_of(&e));
+                                break;
+                            }
+                            if cnt == 0 {
+                                break;
+                            }
+                        }
+                        let _ = fs.releasedir(&ctx, dir, libc::O_RDONLY as u32, h);
+                        match err {
+                            Some(e) if ents.is_empty() => Err(e),
+                            _ => Ok(ents),
+                        }
+                    });
+                    for i in tmp.into_iter().rev() {
+                        fs.forget(&ctx, i, 1);
+                    }
+                    res
+                }));
+                match r {
+                    Ok(Ok(ents)) => {
+                        // like the kernel, the client takes no reference for "." and ".."
+                        for (n, i) in ents.iter() {
+                            if n != "." && n != ".." && *i != 0 {
+                                let mut q = p.clone();
+                                q.push(n.clone());
+                                cl.take(&format!("{}:{}", lab, n), *i);
+                                if let Some(m) = op["mns"][n.as_str()].as_u64() {
+                                    cl.model.insert(m, *i);
+                                }
+                            }
+                        }
+                        ev["st"] = json!(0);
+                        ev["ents"] = json!(ents.iter().map(|(n, i)| json!([n, i])).collect::<Vec<_>>());
+                    }
+                    Ok(Err(e)) => ev["st"] = json!(e),
+                    Err(_) => ev["st"] = json!(-2),
+                }
+            }
+            "forget" => {
+                let n = op["n"].as_u64().unwrap_or(1);
+                match cl.forget_target(op) {
+                    Some(i) => {
+                        ev["held"] = json!(cl.counts.get(&i).copied().unwrap_or(0));
+                        let r = catch_unwind(AssertUnwindSafe(|| fs.forget(&ctx, i, n)));
+                        cl.dec(i, n);
+                        ev["ino"] = json!(i);
+                        ev["st"] = json!(if r.is_ok() { 0 } else { -2 });
+                    }
+                    None => ev["st"] = json!(-7),
+                }
+            }
+            "batch_forget" => {
+                let mut items = Vec::new();
+                for it in op["items"].as_array().cloned().unwrap_or_default() {
+                    if let Some(i) = cl.target(&it[0]) {
+                        items.push((i, it[1].as_u64().unwrap_or(1)));
+                    }
+                }
+                let req = items.clone();
+                let r = catch_unwind(AssertUnwindSafe(|| fs.batch_forget(&ctx, req)));
+                for (i, n) in items.iter() {
+                    cl.dec(*i, *n);
+                }
+                ev["items"] = json!(items.iter().map(|(i, n)| json!([i, n])).collect::<Vec<_>>());
+                ev["st"] = json!(if r.is_ok() { 0 } else { -2 });
+            }
+            _ => {
+                let blocks = &mut self.blocks;
+                let slots = &mut self.slots;
+                let r = catch_unwind(AssertUnwindSafe(|| {
+                    let mut ex = Exec { fs, ctx: Context::default(), looked: Vec::new(), slots, keep: true, kept: None };
+                    let r = ex.run(op, blocks);
+                    ex.forget_all();
+                    (r, ex.kept)
+                }));
+                match r {
+                    Ok((Ok(()), kept)) => {
+                        ev["st"] = json!(0);
+                        if let Some(k) = kept {
+                            cl.take(&lab, k);
+                            if let Some(m) = op["mn"].as_u64() {
+                                cl.model.insert(m, k);
+                            }
+                            ev["ino"] = json!(k);
+                        }
+                    }
+                    Ok((Err(e), kept)) => {
+                        ev["st"] = json!(e);
+                        // an entry handed out by a request that then failed is still a reference
+                        if let Some(k) = kept {
+                            cl.take(&lab, k);
+                            ev["ino"] = json!(k);
+                        }
+                    }
+                    Err(_) => ev["st"] = json!(-2),
+                }
+            }
+        }
+        tr.emit(&ev);
+        self.refs_observe(cl, tr);
+    }
+
+    fn refs_observe(&mut self, cl: &Client, tr: &mut Trace) {
+        let seg = self.seg;
+        let fs = match self.fs.as_ref() {
+            Some(f) => f,
+            None => return,
+        };
+        tr.emit(&json!({"e":"View","seg":seg,"rows":walk(fs, &self.blocks, &self.names)}));
+        // probe every number the client ever held, the root and a number never handed out
+        let ctx = Context::default();
+        let mut seen = std::collections::HashSet::new();
+        let mut rows = Vec::new();
+        let mut todo: Vec<(String, u64)> = vec![("root".into(), ROOT)];
+        for l in cl.order.iter() {
+            todo.push((l.clone(), cl.labels[l]));
+        }
+        todo.push(("unknown".into(), 4242));
+        for (lab, ino) in todo {
+            if !seen.insert(ino) {
+                continue;
+            }
+            let held = cl.counts.get(&ino).copied().unwrap_or(0);
+            let r = catch_unwind(AssertUnwindSafe(|| fs.getattr(&ctx, ino, None)));
+            let mut row = json!({"lab": lab, "ino": ino, "held": held});
+            match r {
+                Ok(Ok((st, _))) => {
+                    row["st"] = json!(0);
+                    row["t"] = json!(type_of(st.st_mode, st.st_rdev));
+                    row["m"] = json!(st.st_mode & 0o7777);
+                    row["sz"] = json!(st.st_size);
+                }
+                Ok(Err(e)) => row["st"] = json!(errno_of(&e)),
+                Err(_) => row["st"] = json!(-2),
+            }
+            rows.push(row);
+        }
+        tr.emit(&json!({"e":"Probe","seg":seg,"rows":rows}));
+        // descriptors this (fully walked) instance holds beyond a fresh instance over the same directories walked the
+        // same way: while the client holds nothing this must not grow (released nodes let go of their layer inodes)
+        let total = nfds() - self.fd0;
+        let n2 = nfds();
+        let fresh = match catch_unwind(AssertUnwindSafe(|| build_overlay(self.upper.as_deref(), &self.lowers, &self.base.join("work")))) {
+            Ok(Ok(fs2)) => {
+                let _ = walk(&fs2, &self.blocks, &self.names);
+                let f = nfds() - n2;
+                drop(fs2);
+                f
+            }
+            _ => -1,
+        };
+        tr.emit(&json!({"e":"Fds","seg":seg,"live":total,"fresh":fresh}));
+    }
+}
+
+/// systematic reference histories: forget to zero, forget of deleted-but-referenced numbers, over-forget,
+/// unknown numbers, refused requests, rename over a referenced file, hard links, readdirplus, batch_forget
+fn refs_systematic() -> Vec<Value> {
+    let upper = json!([{"p":["b"],"t":"file","m":0o644,"c":[["Rb",0,1]]}, {"p":["c"],"t":"dir","m":0o755},
+                       {"p":["c","a"],"t":"file","m":0o600,"c":[["Rca",0,2]]}]);
+    let lower = json!([{"p":["a"],"t":"file","m":0o640,"c":[["Ra",0,1]]}, {"p":["c"],"t":"dir","m":0o750},
+                       {"p":["c","b"],"t":"file","m":0o604,"c":[["Rcb",0,1]]}]);
+    let hs: Vec<(&str, Value)> = vec![
+        ("zero-deleted", json!([{"op":"lookup","p":["a"],"as":"x"},{"op":"unlink","p":["a"]},{"op":"forget","of":"x","n":1}])),
+        ("recreate", json!([{"op":"lookup","p":["b"],"as":"y"},{"op":"lookup","p":["b"],"as":"y"},{"op":"forget","of":"y","n":1},
+                            {"op":"unlink","p":["b"]},{"op":"create","p":["b"],"m":0o600,"excl":true,"as":"z"},{"op":"forget","of":"y","n":1},
+                            {"op":"forget","of":"z","n":1}])),
+        ("recreate-lower", json!([{"op":"lookup","p":["a"],"as":"x"},{"op":"unlink","p":["a"],"as":"v"},{"op":"create","p":["a"],"m":0o600,"as":"z"},
+                                  {"op":"forget","of":"x","n":2},{"op":"lookup","p":["a"],"as":"z2"},{"op":"forget","of":"z","n":2}])),
+        ("over-forget", json!([{"op":"lookup","p":["b"],"as":"y"},{"op":"forget","of":"y","n":3},{"op":"lookup","p":["b"],"as":"y2"}])),
+        ("unknown", json!([{"op":"forget","ino":4242,"n":5},{"op":"forget","ino":1,"n":100},{"op":"lookup","p":["a"],"as":"x"},
+                           {"op":"batch_forget","items":[[4243,1],[1,7],["x",1]]}])),
+        ("refused", json!([{"op":"lookup","p":["c","c"],"as":"n"},{"op":"create","p":["b"],"m":0o600,"excl":true,"as":"e"},{"op":"mkdir","p":["a"],"m":0o755,"as":"e2"},
+                           {"op":"rmdir","p":["c"]},{"op":"unlink","p":["c","c"]},{"op":"link","src":["c"],"p":["a","a"],"as":"e3"},
+                           {"op":"symlink","p":["c","a"],"tg":"t","as":"e4"},{"op":"lookup","p":["b"],"as":"y"}])),
+        ("rename-over", json!([{"op":"lookup","p":["b"],"as":"y"},{"op":"lookup","p":["a"],"as":"x"},{"op":"rename","p":["a"],"to":["b"]},
+                               {"op":"rename","p":["c","a"],"to":["b"]},{"op":"forget","of":"y","n":1}])),
+        ("hard-links", json!([{"op":"lookup","p":["b"],"as":"y"},{"op":"link","src":["b"],"p":["c","c"],"as":"k"},{"op":"unlink","p":["b"]},
+                              {"op":"forget","of":"y","n":1},{"op":"link","src":["c","c"],"p":["b"],"as":"k2"},{"op":"unlink","p":["c","c"]},
+                              {"op":"forget","of":"k","n":1},{"op":"link","src":["a"],"p":["c","c"],"as":"k3"}])),
+        ("readdirplus", json!([{"op":"rdplus","p":[],"as":"r"},{"op":"rdplus","p":["c"],"as":"s"},{"op":"unlink","p":["c","a"]},
+                               {"op":"batch_forget","items":[["s:a",1],["s:b",1]]},{"op":"unlink","p":["c","b"]},{"op":"rmdir","p":["c"]},
+                               {"op":"batch_forget","items":[["r:a",1],["r:b",1],["r:c",1]]}])),
+        ("new-dirs", json!([{"op":"mkdir","p":["c","c"],"m":0o700,"as":"d"},{"op":"symlink","p":["c","c","a"],"tg":"t","as":"s"},
+                            {"op":"mknod","p":["c","c","b"],"m":0o600,"kind":"reg","as":"f"},{"op":"rdplus","p":["c","c"],"as":"r"},
+                            {"op":"unlink","p":["c","c","a"]},{"op":"unlink","p":["c","c","b"]},{"op":"rmdir","p":["c","c"],"as":"v"},
+                            {"op":"forget","of":"d","n":2},{"op":"batch_forget","items":[["s",2],["f",2]]}])),
+    ];
+    let mut out = Vec::new();
+    for (id, ops) in hs.iter() {
+        out.push(json!({"id": id, "B": 16, "upper": true, "names": ["a","b","c"], "depth": 3, "layers": [upper.clone(), lower.clone()], "ops": ops}));
+    }
+    out.push(json!({"id": "no-upper", "B": 16, "upper": false, "names": ["a","b","c"], "depth": 3, "layers": [lower.clone()],
+                    "ops": [{"op":"lookup","p":["a"],"as":"x"},{"op":"unlink","p":["a"]},{"op":"create","p":["b"],"m":0o600,"as":"z"},
+                            {"op":"rdplus","p":["c"],"as":"r"},{"op":"forget","of":"x","n":1}]}));
+    out
+}
+
+/// next operation of a random reference history, chosen from the last logged view and the client's labels
+fn refs_random_op(g: &mut Gen, view: &Value, cl: &Client, step: u64) -> Value {
+    let empty = vec![];
+    let rows = view.as_array().unwrap_or(&empty);
+    let paths = |t: &[&str]| -> Vec<Vec<String>> { rows.iter().filter(|r| t.contains(&r["t"].as_str().unwrap_or(""))).map(|r| path_of(&r["p"])).collect() };
+    let all = paths(&["file", "dir", "sym", "fifo"]);
+    let dirs = paths(&["dir"]);
+    let nondirs = paths(&["file", "sym", "fifo"]);
+    let pick = |g: &mut Gen, v: &Vec<Vec<String>>| -> Vec<String> { if v.is_empty() || g.rng.chance(1, 10) { g.rand_path() } else { v[g.rng.below(v.len() as u64) as usize].clone() } };
+    let newp = |g: &mut Gen| -> Vec<String> {
+        let mut base = if dirs.is_empty() || g.rng.chance(1, 3) { vec![] } else { dirs[g.rng.below(dirs.len() as u64) as usize].clone() };
+        if base.len() >= g.depth {
+            base.truncate(g.depth - 1);
+        }
+        base.push(g.rng.pick(&g.names).clone());
+        base
+    };
+    let lab = format!("n{}", step);
+    let held: Vec<&String> = cl.order.iter().filter(|l| cl.counts.get(&cl.labels[*l]).copied().unwrap_or(0) > 0).collect();
+    let r = g.rng.below(100);
+    if r < 22 {
+        json!({"op":"lookup","p":pick(g, &all),"as":lab})
+    } else if r < 30 {
+        json!({"op":"create","p":newp(g),"m":*g.rng.pick(&FMODES),"excl":g.rng.chance(1,2),"as":lab})
+    } else if r < 36 {
+        json!({"op":"mkdir","p":newp(g),"m":*g.rng.pick(&DMODES),"as":lab})
+    } else if r < 39 {
+        json!({"op":"symlink","p":newp(g),"tg":"t","as":lab})
+    } else if r < 45 {
+        json!({"op":"link","src":pick(g, &nondirs),"p":newp(g),"as":lab})
+    } else if r < 57 {
+        if g.rng.chance(1, 3) { json!({"op":"unlink","p":pick(g, &nondirs),"as":lab}) } else { json!({"op":"unlink","p":pick(g, &nondirs)}) }
+    } else if r < 64 {
+        if g.rng.chance(1, 3) { json!({"op":"rmdir","p":pick(g, &dirs),"as":lab}) } else { json!({"op":"rmdir","p":pick(g, &dirs)}) }
+    } else if r < 72 {
+        let d = if g.rng.chance(1, 3) { vec![] } else { pick(g, &dirs) };
+        json!({"op":"rdplus","p":d,"as":lab})
+    } else if r < 75 {
+        json!({"op":"rename","p":pick(g, &all),"to":pick(g, &all)})
+    } else if r < 78 {
+        json!({"op":"chmod","p":pick(g, &nondirs),"m":*g.rng.pick(&FMODES)})
+    } else if held.is_empty() {
+        json!({"op":"lookup","p":pick(g, &all),"as":lab})
+    } else if r < 93 {
+        let l = held[g.rng.below(held.len() as u64) as usize].clone();
+        let have = cl.counts[&cl.labels[&l]];
+        let n = if g.rng.chance(1, 2) { have } else { 1 };
+        json!({"op":"forget","of":l,"n":n})
+    } else if r < 98 {
+        let mut items = Vec::new();
+        let mut used = std::collections::HashSet::new();
+        for _ in 0..g.rng.range(1, 3) {
+            let l = held[g.rng.below(held.len() as u64) as usize].clone();
+            if used.insert(cl.labels[&l]) {
+                items.push(json!([l, 1]));
+            }
+        }
+        json!({"op":"batch_forget","items":items})
+    } else if r < 99 {
+        json!({"op":"forget","ino":4242 + step,"n":g.rng.range(1, 3)})
+    } else {
+        let l = held[g.rng.below(held.len() as u64) as usize].clone();
+        json!({"op":"forget","of":l,"n":cl.counts[&cl.labels[&l]] + g.rng.range(1, 2)})
+    }
+}
+
+fn refs_run(work: &Path, seg: u64, scn: &Value, tr: &mut Trace) {
+    let mut s = Scn::setup(work, seg, scn, tr);
+    let mut cl = Client::default();
+    s.refs_observe(&cl, tr);
+    for op in scn["ops"].as_array().cloned().unwrap_or_default() {
+        s.refs_step(&mut cl, &op, tr);
+    }
+    if let Some(n) = scn["random_ops"].as_u64() {
+        let mut g = Gen { rng: Rng::new(scn["seed"].as_u64().unwrap_or(1)), names: s.names.clone(), depth: 3, stream: 0, big: false };
+        for step in 0..n {
+            let view = match s.fs.as_ref() {
+                Some(fs) => walk(fs, &s.blocks, &s.names),
+                None => json!([]),
+            };
+            let op = refs_random_op(&mut g, &view, &cl, step);
+            s.refs_step(&mut cl, &op, tr);
+        }
+    }
+    // the client lets go of everything it still holds; then both instances are fully loaded and compared
+    let held: Vec<(u64, u64)> = cl.counts.iter().filter(|(_, c)| **c > 0).map(|(i, c)| (*i, *c)).collect();
+    let mut held = held;
+    held.sort();
+    for (i, c) in held {
+        s.refs_step(&mut cl, &json!({"op":"forget","ino":i,"n":c,"final":true}), tr);
+    }
+    tr.emit(&json!({"e":"End","seg":seg}));
+    s.finish();
 }
 
 // ------------------------------------------------------------------------------------------------
@@ -882,6 +1310,7 @@ struct Scn {
     names: Vec<String>,
     fs: Option<OverlayFs>,
     slots: Vec<Option<Slot>>,
+    fd0: i64,
 }
 
 impl Scn {
@@ -918,7 +1347,7 @@ impl Scn {
         let up_rows = upper.as_ref().map(|u| host_rows(u, &blocks, true)).unwrap_or_default();
         let low_rows: Vec<Value> = lowers.iter().map(|l| Value::Array(host_rows(l, &blocks, true))).collect();
         tr.emit(&json!({"e":"Layers","seg":seg,"upper":up_rows,"lowers":low_rows}));
-        let mut s = Scn { seg, base, upper, lowers, blocks, names, fs: None, slots: vec![None, None, None] };
+        let mut s = Scn { seg, base, upper, lowers, blocks, names, fs: None, slots: vec![None, None, None], fd0: nfds() };
         match catch_unwind(AssertUnwindSafe(|| build_overlay(s.upper.as_deref(), &s.lowers, &s.base.join("work")))) {
             Ok(Ok(fs)) => s.fs = Some(fs),
             Ok(Err(e)) => tr.emit(&json!({"e":"BuildError","seg":seg,"st":errno_of(&e),"msg":e.to_string()})),
@@ -1283,6 +1712,43 @@ fn main() {
                     }
                 }
                 s.finish();
+            }
+            tr.flush();
+        }
+        "refs" => {
+            // ovl refs <work> <scenarios.ndjson> <out>: reference-accounting histories (X04)
+            let mut tr = Trace::create(&args[4]);
+            let text = std::fs::read_to_string(&args[3]).unwrap();
+            for (k, line) in text.lines().filter(|l| !l.trim().is_empty()).enumerate() {
+                let scn: Value = serde_json::from_str(line).expect("scenario json");
+                refs_run(&work, k as u64 + 1, &scn, &mut tr);
+            }
+            tr.flush();
+        }
+        "refs-sys" => {
+            let mut tr = Trace::create(&args[3]);
+            for (k, scn) in refs_systematic().iter().enumerate() {
+                refs_run(&work, k as u64 + 1, scn, &mut tr);
+            }
+            tr.flush();
+        }
+        "refs-random" => {
+            // seeded random reference histories over random layer contents
+            let mut tr = Trace::create(&args[3]);
+            let seed = env_u64("VERIF_SEED", 1);
+            for k in 0..env_u64("OVL_SCEN", 20) {
+                let mut g = Gen { rng: Rng::new(seed.wrapping_mul(7_000_003).wrapping_add(k)), names: vec!["a".into(), "b".into(), "c".into()], depth: 3, stream: 0, big: false };
+                let has_upper = !g.rng.chance(1, 10);
+                let nl = g.rng.range(1, 2) as usize;
+                let mut layers = Vec::new();
+                for l in 0..(nl + if has_upper { 1 } else { 0 }) {
+                    let mut rows = Vec::new();
+                    g.layer(l, &mut Vec::new(), &mut rows);
+                    layers.push(Value::Array(rows));
+                }
+                let scn = json!({"id": format!("x{}_{}", seed, k), "B": 512, "upper": has_upper, "layers": layers, "names": g.names.clone(), "depth": 3,
+                                 "ops": [], "random_ops": env_u64("OVL_OPS", 25), "seed": seed.wrapping_mul(31).wrapping_add(k)});
+                refs_run(&work, k + 1, &scn, &mut tr);
             }
             tr.flush();
         }
